@@ -237,8 +237,31 @@ fn check_position(
                         ));
                     }
                 }
-                // Cursor on the qualifier part of `q.name` or on an import qualifier: the
-                // property does not say.
+                // Cursor on the qualifier part of `q.name`: which identifier is meant is not
+                // fixed, but the two requests must mean the same one: when go-to-definition
+                // answers with the binder of `name`, find-references answers with its uses.
+                OccKind::UseQualifier => {
+                    let next = l.occs.iter().enumerate().find(|(_, u)| u.module == o.module && u.kind == OccKind::Use && u.start >= o.end && u.start <= o.end + 2);
+                    if let Some((ui, _)) = next {
+                        if let Some(Bind::Binder(b)) = l.binding(ui) {
+                            let bo = &l.occs[*b];
+                            let (cm, cs, ce) = l.constructs[*b];
+                            let loc = if def.is_object() { location(l, srv, def) } else { None };
+                            let treats_as_name = matches!(loc, Some((m, s, e)) if m == bo.module && s <= bo.start && bo.end <= e && cs <= s && e <= ce && cm == m);
+                            if treats_as_name {
+                                let want = expected_refs(*b);
+                                let got = got_refs()?;
+                                if got != want {
+                                    return Err((
+                                        "references | differ from the uses bound to the binder that go-to-definition names at the same position | on the qualifier part of a qualified use".into(),
+                                        format!("at {here} (`{}`): definition {def}; references {got:?}, bound uses {want:?}", o.text),
+                                    ));
+                                }
+                            }
+                        }
+                    }
+                }
+                // Cursor on an import qualifier: the property does not say.
                 _ => {}
             }
         }
@@ -320,7 +343,7 @@ impl Engine for C17 {
     }
     fn assumptions(&self) -> Vec<String> {
         vec![
-            "cursor exactly at the end of an identifier, on the qualifier part of `q.name` or on an import qualifier: the property does not fix the answer; not checked. On a parameter or rec binder itself an empty answer is accepted, but every reference returned must be a use bound to that binder".into(),
+            "cursor exactly at the end of an identifier or on an import qualifier: the property does not fix the answer; not checked. On the qualifier part of `q.name` the two requests must agree: if go-to-definition answers with the binder of `name`, find-references must answer with exactly its uses. On a parameter or rec binder itself an empty answer is accepted, but every reference returned must be a use bound to that binder".into(),
             "programs that the compiler rejects or whose binding relation has an unspecified collision are skipped".into(),
         ]
     }
